@@ -113,14 +113,14 @@ func (b *builder) threePIdx(s uint64) []uint64 {
 }
 
 type famOpts struct {
-	n3p        int  // number of third-party caveats (0-2)
-	steps      int  // attenuation steps
-	proofDis   int  // 0 never, 1 always, 2 random
-	attest     bool // discharges carry attestations (only sticks on proofs)
-	bind       bool // bind discharges to the final token (or an ancestor)
-	proofRoot  bool
-	v0         bool
-	disCavs    bool
+	n3p       int  // number of third-party caveats (0-2)
+	steps     int  // attenuation steps
+	proofDis  int  // 0 never, 1 always, 2 random
+	attest    bool // discharges carry attestations (only sticks on proofs)
+	bind      bool // bind discharges to the final token (or an ancestor)
+	proofRoot bool
+	v0        bool
+	disCavs   bool
 }
 
 func (b *builder) family(o famOpts) family {
@@ -698,14 +698,35 @@ func genC06(c *ctx) {
 			}
 			return false
 		}
+		wants := make([]bool, len(nodes))
 		for ni := range nodes {
 			ob := b.do(sym.Op{Kind: "OVerify", S: nodes[ni], K: keyRoot, Slots: []uint64{d}, Tr: nil})
 			want := true
 			for _, bi := range bound {
 				want = want && bi >= 0 && isDescOrSelf(ni, bi)
 			}
+			wants[ni] = want
 			if accepted(ob) != want && oracle == "" {
 				oracle = fmt.Sprintf("bound discharge presented with node %d: accepted=%v, expected %v (bound to %v)", ni, accepted(ob), want, bound)
+			}
+		}
+		// the same PARSED discharge object presented with several parents in turn (what bundle.KeyResolver does with one
+		// header): the tokens it works with first, then the others -- an earlier acceptance must not carry over
+		var order []int
+		for ni := range nodes {
+			if wants[ni] {
+				order = append(order, ni)
+			}
+		}
+		for ni := range nodes {
+			if !wants[ni] {
+				order = append(order, ni)
+			}
+		}
+		for _, ni := range order {
+			ob := b.do(sym.Op{Kind: "OVerifyObjs", S: nodes[ni], K: keyRoot, Slots: []uint64{d}})
+			if accepted(ob) != wants[ni] && oracle == "" {
+				oracle = fmt.Sprintf("parsed discharge object re-presented with node %d: accepted=%v, expected %v (bound to %v)", ni, accepted(ob), wants[ni], bound)
 			}
 		}
 		// bind to a live token object, attenuate that same object in place, bind another discharge to it:
@@ -909,7 +930,17 @@ func genC08(c *ctx) {
 		oracle := ""
 		for k := 1 + r.Intn(7); k > 0; k-- {
 			s := rng.Pick(r, slots)
-			switch r.Intn(7) {
+			switch r.Intn(9) {
+			case 7: // the helpers that build the caveat themselves: binding, Add3P
+				ob := b.do(sym.Op{Kind: "OBind", S: s, Src: root})
+				if encoded && len(ob) == 1 && ob[0] == 1 && oracle == "" {
+					oracle = "Bind succeeded on a proof after it was encoded"
+				}
+			case 8:
+				ob := b.do(sym.Op{Kind: "OAdd", S: s, Adds: []sym.ACav{{Is3P: true, EncKey: keyTP2, Loc: uint64(2 + r.Intn(2))}}})
+				if encoded && len(ob) == 1 && ob[0] == 1 && oracle == "" {
+					oracle = "Add3P succeeded on a proof after it was encoded"
+				}
 			case 0:
 				ob := b.do(sym.Op{Kind: "OAdd", S: s, Adds: b.randData(1)})
 				if encoded && len(ob) == 1 && ob[0] == 1 && oracle == "" {
